@@ -40,7 +40,7 @@ func (ioFaults) Name() string    { return "io-faults" }
 func (ioFaults) Props() []string { return []string{"C18"} }
 func (ioFaults) Runs(tier string) int64 {
 	if tier == "thorough" {
-		return 40000
+		return 25000
 	}
 	return 400
 }
